@@ -37,6 +37,7 @@ var isBuild = []bool{true, true, true, false, false, true}
 
 type graph struct {
 	Short bool     `json:"short_labels"` // BUILD files are loaded by their package label ("//p1") instead of "//p1:BUILD.dawn"
+	Rel   bool     `json:"relative_labels"` // files of the root package spell their loads relative to it ("p2:BUILD.dawn", ":h1.dawn"); the others spell the same files absolutely
 	Edges [][2]int `json:"edges"`        // (from, to): file `from` has a load statement for file `to`, in this order
 	NPkg  int      `json:"packages"`
 	Name  string   `json:"name"`
@@ -44,7 +45,7 @@ type graph struct {
 
 func (g graph) String() string {
 	var b strings.Builder
-	fmt.Fprintf(&b, "%s pkgs=%d short=%v:", g.Name, g.NPkg, g.Short)
+	fmt.Fprintf(&b, "%s pkgs=%d short=%v rel=%v:", g.Name, g.NPkg, g.Short, g.Rel)
 	for _, e := range g.Edges {
 		fmt.Fprintf(&b, " %s>%s", fileSym[e[0]], fileSym[e[1]])
 	}
@@ -126,6 +127,9 @@ func (g graph) write(root string) {
 			lbl := fileLabel[j]
 			if g.Short && isBuild[j] && strings.HasSuffix(lbl, ":BUILD.dawn") && lbl != "//:BUILD.dawn" {
 				lbl = strings.TrimSuffix(lbl, ":BUILD.dawn") // the package's default module
+			}
+			if g.Rel && !strings.Contains(filePath[i], "/") {
+				lbl = strings.TrimPrefix(lbl, "//") // relative to the root package, with or without a package part
 			}
 			fmt.Fprintf(&b, "load(%q, %q)\n", lbl, fileSym[j])
 		}
@@ -302,6 +306,21 @@ func curated() []graph {
 		func() graph {
 			g := G("two-builds-load-third-by-package-label", 3, E(b0, b2), E(b1, b2))
 			g.Short = true
+			return g
+		}(),
+		func() graph {
+			g := G("two-builds-load-third-one-relative", 3, E(b0, b2), E(b1, b2), E(b2, h1))
+			g.Rel = true
+			return g
+		}(),
+		func() graph {
+			g := G("shared-helper-loading-helper-one-relative", 3, E(b0, h1), E(b1, h1), E(b2, h1), E(h1, h2))
+			g.Rel = true
+			return g
+		}(),
+		func() graph {
+			g := G("build-2cycle-behind-relative-load", 3, E(b0, b1), E(b1, b2), E(b2, b1))
+			g.Rel = true
 			return g
 		}(),
 		G("self-load-build", 2, E(b0, b0)),
